@@ -71,6 +71,13 @@ def run(ctx):
     for ver in "234":
         for s in core.special(ver, rng, ctx.n(1200, 30000)):
             groups.append((ver, [s] + variants(ver, s, rng, 3)))
+    # systematic field orders (official, the library's own table orders, alphabetical, reversed, rotated optional groups)
+    for _ in range(ctx.n(500, 10000)):
+        ver = rng.choice("234")
+        a = core.rand_assignment(ver, rng, p_absent=rng.choice([0.0, 0.3, 0.7]), p_nd=rng.choice([0.0, 0.2]))
+        vs = core.order_variants(ver, a, rng)
+        pf = next((p for p in core.PREFIX[ver] if p and vs[0].startswith(p)), "")
+        groups.append((ver, vs))
     ctx.sample({"vector": groups[0][1][0], "variants": groups[0][1][1:3]})
     for ver in "234":
         flat = [(ver, x) for v, vs in groups if v == ver for x in vs]
